@@ -9,6 +9,14 @@ CHECKS = {
    text="All plain strings of length <=2 and all coded inputs of length <=3 are enumerated completely (thorough: plus every 4-byte input starting 0xfe/0xff); beyond that, generated search (long strings over all 256 symbols, tail-mutated encodings, arbitrary bytes, coverage-guided fuzzing in the thorough tier). Exploration: absence beyond the enumerated lengths is not established.",
    note="Trusted: x/net hpack Huffman table as RFC 7541 Appendix B (self-checked prefix-free/Kraft), the in-harness bitwise reference coder (cross-checked against x/net on a slice of the space every run).",
    ref="6.2 C15"),
+ "C03": dict(technique="model-based property testing (rapid) against an in-harness RFC 7541 encoder/table model + differential testing of rejection against a strict reference decoder + native fuzzing",
+   text="Generated block sequences over every representation/Huffman/index choice, size-update and limit schedule are decoded through the server's block-level entry point; field lists and the dynamic table are compared with the encoder model after every block. Mutated and arbitrary blocks are judged against a strict reference decoder (reject iff invalid, same output otherwise). Exploration only.",
+   note="Trusted: the in-harness RFC 7541 reference (encoder, table, strict decoder), guarded by x/net's decoder on every generated block; hook VerifNextField/VerifDynamic only expose existing state.",
+   ref="6.2 C03"),
+ "C04": dict(technique="model-based property testing (rapid): encoder output decoded by a strict RFC 7541 reference decoder and by x/net, table equality after every block",
+   text="Generated AppendHeader histories (all static names, arbitrary-byte names/values, boundary lengths, store/sensitive flags, compression switches, SetMaxTableSize schedules incl. several changes between blocks) must decode, under a strict reference decoder configured with the peer's limits, to the same fields with the same sensitivity, keep both tables equal, stay within the limit and announce lowered limits. Exploration only.",
+   note="Trusted: strict reference decoder + x/net decoder; VerifDynamic hook reads the encoder's table.",
+   ref="6.2 C04"),
 }
 PENDING = {}  # id -> reason, for properties not claimed (yet)
 
